@@ -618,3 +618,321 @@ Section LspStep.
         apply (dir_cache_set File fname fcomments); assumption.
   Qed.
 End LspStep.
+
+(* ---------- histories of single-file replacements: the directive hand-over ---------- *)
+
+(* the second maps.Copy of Lint for one linted file / nothing linted *)
+Lemma dirs_update_nil g : dirs_update g [] = g.
+Proof. reflexivity. Qed.
+
+Lemma dirs_update_single g n o : dirs_update g [(n, o)] = gm_set g n o.
+Proof. reflexivity. Qed.
+
+(* a map with distinct keys written into the empty map is that map (SetIgnoreDirectives after Clear) *)
+Lemma dirs_update_carry rs : NoDup (map fst rs) -> dirs_update [] (carry rs) = carry rs.
+Proof.
+  intros Hnd. unfold carry.
+  assert (E : carry_from [] rs = map carried_entry rs)
+    by (rewrite (carry_from_fresh rs [] Hnd) by reflexivity; reflexivity).
+  rewrite E. unfold dirs_update. rewrite fold_set_carried. exact E.
+Qed.
+
+(* the general reading of the update: the last entry of [new] for a file wins, files [new] does not mention keep
+   their old entry *)
+Lemma gm_get_app a b f :
+  gm_get (a ++ b) f = match gm_get a f with Some o => Some o | None => gm_get b f end.
+Proof.
+  induction a as [|[k o] a IH]; [reflexivity|]. cbn. destruct (str_eqb k f); [reflexivity | exact IH].
+Qed.
+
+Lemma dirs_update_get new : forall old f,
+  gm_get (dirs_update old new) f =
+  match gm_get (rev new) f with Some o => Some o | None => gm_get old f end.
+Proof.
+  induction new as [|[k o] new IH]; intros old f; [reflexivity|].
+  unfold dirs_update in *. cbn [fold_left fst snd rev]. rewrite IH, gm_get_app. cbn [gm_get].
+  destruct (gm_get (rev new) f); [reflexivity|].
+  destruct (str_eqb_spec k f) as [->|Hne].
+  - apply gm_get_set_same.
+  - apply gm_get_set_other. exact Hne.
+Qed.
+
+Section HistoryProofs.
+  Variable File : Type.
+  Variable Agg : Type.
+  Variable fname : File -> str.
+  Variable fcomments : File -> list comment.
+  Variable brules : list str.
+  Variable ckeys : list str.
+  Variable B_aggregate : str -> File -> list Agg.
+  Variable C_aggregate : str -> File -> option (list Agg).
+  Variable B_report : str -> list Agg -> list violation.
+  Variable C_report : str -> list Agg -> list violation.
+  Variable src : Agg -> str.
+  Variable ikey : Agg -> str.
+
+  Hypothesis H_bperm : forall r a b, Permutation a b -> Permutation (B_report r a) (B_report r b).
+  Hypothesis H_cperm : forall k a b, Permutation a b -> Permutation (C_report k a) (C_report k b).
+
+  Notation collect := (collect File Agg brules ckeys B_aggregate C_aggregate).
+  Notation file_aggs := (file_aggs File Agg brules ckeys B_aggregate C_aggregate).
+  Notation represents := (represents File Agg fname brules ckeys B_aggregate C_aggregate).
+  Notation well_sourced := (well_sourced File Agg fname brules ckeys B_aggregate C_aggregate src).
+  Notation well_keyed := (well_keyed File Agg brules ckeys B_aggregate C_aggregate ikey).
+  Notation no_bare_marker := (no_bare_marker File Agg brules ckeys B_aggregate C_aggregate).
+  Notation dirs_represent := (dirs_represent File fname fcomments).
+  Notation file_dirs := (file_dirs File fcomments).
+  Notation results_of := (results_of File fname fcomments).
+  Notation exported_dirs := (exported_dirs File fname fcomments).
+  Notation replace_file := (replace_file File fname).
+  Notation files_after := (files_after File fname).
+  Notation one_shot := (one_shot File Agg fname fcomments brules ckeys B_aggregate C_aggregate B_report C_report).
+  Notation lsp_init := (lsp_init File Agg fname fcomments brules ckeys B_aggregate C_aggregate src).
+  Notation lsp_replace := (lsp_replace File Agg fname fcomments brules ckeys B_aggregate C_aggregate src).
+  Notation lsp_report := (lsp_report File Agg fname fcomments brules ckeys B_report C_report ikey).
+  Notation lsp_history := (lsp_history File Agg fname fcomments brules ckeys B_aggregate C_aggregate src).
+  Notation api_init := (api_init File fname fcomments).
+  Notation api_replace := (api_replace File fname fcomments).
+  Notation api_report := (api_report File Agg fname fcomments brules ckeys B_aggregate C_aggregate B_report C_report).
+  Notation api_report_mixed :=
+    (api_report_mixed File Agg fname fcomments brules ckeys B_aggregate C_aggregate B_report C_report).
+  Notation api_history := (api_history File fname fcomments).
+  Notation api_aggs := (api_aggs File Agg brules ckeys B_aggregate C_aggregate).
+
+  (* what one run over the single file f' exports *)
+  Lemma exported_single f' : exported_dirs [f'] = [(fname f', file_dirs f')].
+  Proof. reflexivity. Qed.
+
+  (* both hand-overs of a single re-linted file are the same explicit update: the file's entry is replaced by
+     the directives of its new contents, whatever they are (also none) *)
+  Lemma lint_dirs_single g f' :
+    lint_dirs File fname fcomments g [f'] = gm_set g (fname f') (file_dirs f').
+  Proof. reflexivity. Qed.
+
+  Lemma set_file_dirs_single g f' :
+    set_file_ignore_directives (fname f') (exported_dirs [f']) g = gm_set g (fname f') (file_dirs f').
+  Proof.
+    unfold set_file_ignore_directives. rewrite exported_single. cbn [gm_get]. rewrite str_eqb_refl. reflexivity.
+  Qed.
+
+  Lemma exported_init fs :
+    NoDup (map fname fs) -> set_ignore_directives (exported_dirs fs) = carry (results_of fs).
+  Proof.
+    intros Hnd. unfold set_ignore_directives, AggPipeline.exported_dirs. apply dirs_update_carry.
+    rewrite (results_names File fname fcomments). exact Hnd.
+  Qed.
+
+  Lemma files_after_nodup edits : forall fs0,
+    NoDup (map fname fs0) -> NoDup (map fname (files_after fs0 edits)).
+  Proof.
+    induction edits as [|f' edits IH]; intros fs0 H; [exact H|].
+    unfold AggCache.files_after in *. cbn [fold_left]. apply IH.
+    apply (nodup_replace File fname). exact H.
+  Qed.
+
+  (* a map that answers like the directives of one run over the files makes the aggregate report ignore
+     exactly what that run ignores *)
+  Lemma dirs_represent_ignored g fs v :
+    dirs_represent g fs -> agg_ignored g v = agg_ignored (carry (results_of fs)) v.
+  Proof. intros Hrep. unfold agg_ignored, agg_directives. rewrite (Hrep (v_file v)). reflexivity. Qed.
+
+  (* ---- the language server ---- *)
+
+  Definition lsp_invariant (st : lsp_state Agg) (fs : list File) : Prop :=
+    NoDup (map fname fs) /\ represents (fst st) fs /\ dirs_represent (snd st) fs.
+
+  Lemma lsp_init_invariant fs :
+    NoDup (map fname fs) -> (2 <= length fs)%nat -> well_sourced fs -> lsp_invariant (lsp_init fs) fs.
+  Proof.
+    intros Hnd Hlen Hs. unfold AggCache.lsp_init. split; [exact Hnd|]. cbn [fst snd]. split.
+    - rewrite (collect_multi File Agg brules ckeys B_aggregate C_aggregate fs Hlen).
+      apply (set_aggregates_represents File Agg fname brules ckeys B_aggregate C_aggregate src). exact Hs.
+    - rewrite (exported_init fs Hnd). apply (dir_cache_init File fname fcomments).
+  Qed.
+
+  Lemma lsp_replace_invariant st fs f' :
+    lsp_invariant st fs -> well_sourced [f'] -> lsp_invariant (lsp_replace st f') (replace_file f' fs).
+  Proof.
+    intros (Hnd & Hrep & Hdirs) Hs. unfold AggCache.lsp_replace. cbn [fst snd].
+    split; [apply (nodup_replace File fname); exact Hnd|]. split.
+    - rewrite (collect_true File Agg brules ckeys B_aggregate C_aggregate). cbn [flat_map]. rewrite app_nil_r.
+      apply (set_file_represents File Agg fname brules ckeys B_aggregate C_aggregate src); assumption.
+    - rewrite set_file_dirs_single. apply (dir_cache_set File fname fcomments); assumption.
+  Qed.
+
+  Lemma lsp_history_invariant edits : forall st fs,
+    lsp_invariant st fs -> (forall f', In f' edits -> well_sourced [f']) ->
+    lsp_invariant (fold_left lsp_replace edits st) (files_after fs edits).
+  Proof.
+    induction edits as [|f' edits IH]; intros st fs Hinv Hs; [exact Hinv|].
+    unfold AggCache.files_after in *. cbn [fold_left]. apply IH.
+    - apply lsp_replace_invariant; [exact Hinv | apply Hs; left; reflexivity].
+    - intros g Hg. apply Hs. right; exact Hg.
+  Qed.
+
+  Lemma well_sourced_part fs f : well_sourced fs -> In f fs -> well_sourced [f].
+  Proof. intros Hs Hin g a [<-|[]] Ha. apply (Hs f a Hin Ha). Qed.
+
+  (* whatever led to a state that represents the files: the incremental report is the one-shot report *)
+  Lemma lsp_report_of_invariant st fs :
+    lsp_invariant st fs -> well_keyed fs -> no_bare_marker fs -> (2 <= length fs)%nat ->
+    Permutation (lsp_report st) (one_shot fs).
+  Proof.
+    intros (Hnd & Hrep & Hdirs) Hk Hnm Hlen. unfold AggCache.lsp_report, lint_dirs.
+    rewrite dirs_update_nil.
+    eapply Permutation_trans.
+    - apply (report_from_cache_eq_fresh File Agg fname brules ckeys B_aggregate C_aggregate B_report C_report ikey
+               H_bperm H_cperm (fst st) fs (snd st)); assumption.
+    - unfold AggPipeline.one_shot.
+      rewrite (lint_agg_provided Agg brules ckeys B_report C_report).
+      rewrite (lint_agg_multi Agg brules ckeys B_report C_report _ _ _ Hlen).
+      rewrite (collect_true File Agg brules ckeys B_aggregate C_aggregate).
+      rewrite (collect_multi File Agg brules ckeys B_aggregate C_aggregate fs Hlen).
+      apply (agg_report_equiv Agg brules ckeys B_report C_report H_bperm H_cperm).
+      + intros k. apply Permutation_refl.
+      + intros k. reflexivity.
+      + intros v. apply dirs_represent_ignored. exact Hdirs.
+  Qed.
+
+  (* Any history of single-file replacements in the language server (start-up lint, then per edit: re-lint the
+     file alone, SetFileAggregates, SetFileIgnoreDirectives), followed by the aggregate-report-only run over the
+     cached aggregates and directives, reports what ONE Lint call over the final contents reports -- inline
+     ignores included, also for a file that lost its last directive on the way (or got one back). *)
+  Theorem incremental_directives_eq_fresh (fs0 : list File) (edits : list File) :
+    NoDup (map fname fs0) -> (2 <= length fs0)%nat ->
+    well_sourced (fs0 ++ edits) ->
+    well_keyed (files_after fs0 edits) -> no_bare_marker (files_after fs0 edits) ->
+    (2 <= length (files_after fs0 edits))%nat ->
+    Permutation (lsp_report (lsp_history fs0 edits)) (one_shot (files_after fs0 edits)).
+  Proof.
+    intros Hnd Hlen Hs Hk Hnm Hlen'. apply lsp_report_of_invariant; try assumption.
+    unfold AggCache.lsp_history. apply lsp_history_invariant.
+    - apply lsp_init_invariant; [exact Hnd | exact Hlen|].
+      intros f a Hf Ha. apply (Hs f a); [apply in_or_app; left; exact Hf | exact Ha].
+    - intros f' Hin. apply (well_sourced_part (fs0 ++ edits)); [exact Hs | apply in_or_app; right; exact Hin].
+  Qed.
+
+  (* the directive cache alone, after any history: it answers like one run over the final contents *)
+  Theorem lsp_history_directives (fs0 : list File) (edits : list File) (v : violation) :
+    NoDup (map fname fs0) ->
+    agg_ignored (lint_dirs File fname fcomments
+                   (fold_left (fun g f' => set_file_ignore_directives (fname f') (exported_dirs [f']) g) edits
+                              (set_ignore_directives (exported_dirs fs0))) []) v =
+    agg_ignored (carry (results_of (files_after fs0 edits))) v.
+  Proof.
+    intros Hnd. unfold lint_dirs. rewrite dirs_update_nil. apply dirs_represent_ignored.
+    rewrite (exported_init fs0 Hnd).
+    assert (Hgen : forall edits g fs, NoDup (map fname fs) -> dirs_represent g fs ->
+              dirs_represent (fold_left (fun g f' => set_file_ignore_directives (fname f') (exported_dirs [f']) g) edits g)
+                             (files_after fs edits)).
+    { clear. induction edits as [|f' edits IH]; intros g fs Hnd Hrep; [exact Hrep|].
+      unfold AggCache.files_after in *. cbn [fold_left]. apply IH.
+      - apply (nodup_replace File fname). exact Hnd.
+      - rewrite set_file_dirs_single. apply (dir_cache_set File fname fcomments); assumption. }
+    apply Hgen; [exact Hnd | apply (dir_cache_init File fname fcomments)].
+  Qed.
+
+  (* ---- a client of the public API ---- *)
+
+  Definition api_invariant (st : api_state File) (fs : list File) : Prop :=
+    NoDup (map fname fs) /\ fst st = fs /\ dirs_represent (snd st) fs.
+
+  Lemma api_init_invariant fs : NoDup (map fname fs) -> api_invariant (api_init fs) fs.
+  Proof.
+    intros Hnd. unfold AggCache.api_init. split; [exact Hnd|]. split; [reflexivity|]. cbn [snd].
+    fold (set_ignore_directives (exported_dirs fs)). rewrite (exported_init fs Hnd).
+    apply (dir_cache_init File fname fcomments).
+  Qed.
+
+  Lemma api_replace_invariant st fs f' :
+    api_invariant st fs -> api_invariant (api_replace st f') (replace_file f' fs).
+  Proof.
+    intros (Hnd & Hfs & Hdirs). unfold AggCache.api_replace. cbn [fst snd].
+    split; [apply (nodup_replace File fname); exact Hnd|]. split; [rewrite Hfs; reflexivity|].
+    rewrite exported_single, dirs_update_single. apply (dir_cache_set File fname fcomments); assumption.
+  Qed.
+
+  Lemma api_history_invariant edits : forall st fs,
+    api_invariant st fs -> api_invariant (fold_left api_replace edits st) (files_after fs edits).
+  Proof.
+    induction edits as [|f' edits IH]; intros st fs Hinv; [exact Hinv|].
+    unfold AggCache.files_after in *. cbn [fold_left]. apply IH. apply api_replace_invariant. exact Hinv.
+  Qed.
+
+  Lemma api_aggs_flat fs : api_aggs fs = flat_map file_aggs fs.
+  Proof.
+    unfold AggCache.api_aggs, merge_aggs. induction fs as [|f fs IH]; [reflexivity|].
+    cbn [map concat flat_map]. rewrite IH.
+    rewrite (collect_true File Agg brules ckeys B_aggregate C_aggregate). cbn [flat_map]. rewrite app_nil_r.
+    reflexivity.
+  Qed.
+
+  Lemma lint_agg_provided_any (own m : aggmap Agg) g :
+    lint_aggregate_violations Agg brules ckeys B_report C_report own 1 (Some m) g =
+    agg_report Agg brules ckeys B_report C_report m g.
+  Proof. unfold AggPipeline.lint_aggregate_violations. cbn [Nat.ltb Nat.leb]. destruct m; reflexivity. Qed.
+
+  Lemma one_shot_as_report fs g :
+    (2 <= length fs)%nat -> (forall v, agg_ignored g v = agg_ignored (carry (results_of fs)) v) ->
+    Permutation (agg_report Agg brules ckeys B_report C_report (flat_map file_aggs fs) g) (one_shot fs).
+  Proof.
+    intros Hlen Hd. unfold AggPipeline.one_shot.
+    rewrite (lint_agg_multi Agg brules ckeys B_report C_report _ _ _ Hlen).
+    rewrite (collect_multi File Agg brules ckeys B_aggregate C_aggregate fs Hlen).
+    apply (agg_report_equiv Agg brules ckeys B_report C_report H_bperm H_cperm).
+    - intros k. apply Permutation_refl.
+    - intros k. reflexivity.
+    - exact Hd.
+  Qed.
+
+  (* report-only run after any history of single-file replacements *)
+  Theorem api_incremental_directives_eq_fresh (fs0 : list File) (edits : list File) :
+    NoDup (map fname fs0) -> (2 <= length (files_after fs0 edits))%nat ->
+    Permutation (api_report (api_history fs0 edits)) (one_shot (files_after fs0 edits)).
+  Proof.
+    intros Hnd Hlen.
+    destruct (api_history_invariant edits (api_init fs0) fs0 (api_init_invariant fs0 Hnd)) as (_ & Hfs & Hdirs).
+    unfold AggCache.api_report. fold (api_history fs0 edits) in Hfs, Hdirs.
+    rewrite (lint_agg_provided Agg brules ckeys B_report C_report). rewrite Hfs, api_aggs_flat.
+    unfold lint_dirs. rewrite dirs_update_nil.
+    apply one_shot_as_report; [exact Hlen|]. intros v. apply dirs_represent_ignored. exact Hdirs.
+  Qed.
+
+  (* the last replacement linted by the reporting run itself, handed the directive map of BEFORE that replacement *)
+  Theorem api_mixed_directives_eq_fresh (fs0 : list File) (edits : list File) (f' : File) :
+    NoDup (map fname fs0) -> (2 <= length (files_after fs0 (edits ++ [f'])))%nat ->
+    Permutation (api_report_mixed (api_history fs0 edits) f') (one_shot (files_after fs0 (edits ++ [f']))).
+  Proof.
+    intros Hnd Hlen.
+    destruct (api_history_invariant edits (api_init fs0) fs0 (api_init_invariant fs0 Hnd)) as (Hnd' & Hfs & Hdirs).
+    fold (api_history fs0 edits) in Hfs, Hdirs.
+    assert (Hfa : files_after fs0 (edits ++ [f']) = replace_file f' (files_after fs0 edits)).
+    { unfold AggCache.files_after. rewrite fold_left_app. reflexivity. }
+    rewrite Hfa in *. unfold AggCache.api_report_mixed.
+    rewrite lint_agg_provided_any, Hfs, api_aggs_flat, lint_dirs_single.
+    apply one_shot_as_report; [exact Hlen|]. intros v. apply dirs_represent_ignored.
+    apply (dir_cache_set File fname fcomments); assumption.
+  Qed.
+  (* the directives alone, for a client of the public API: after any history of single-file replacements the map the
+     client accumulated, handed to a report-only run, or to a run that itself re-lints f', decides like one run over
+     the final contents; in particular a file whose new contents have no directive left has nothing ignored *)
+  Theorem api_history_directives (fs0 : list File) (edits : list File) (f' : File) (v : violation) :
+    NoDup (map fname fs0) ->
+    agg_ignored (lint_dirs File fname fcomments (snd (api_history fs0 edits)) []) v =
+      agg_ignored (carry (results_of (files_after fs0 edits))) v /\
+    agg_ignored (lint_dirs File fname fcomments (snd (api_history fs0 edits)) [f']) v =
+      agg_ignored (carry (results_of (replace_file f' (files_after fs0 edits)))) v /\
+    (directive_entries (fcomments f') = [] -> v_file v = fname f' ->
+     agg_ignored (lint_dirs File fname fcomments (snd (api_history fs0 edits)) [f']) v = false).
+  Proof.
+    intros Hnd.
+    destruct (api_history_invariant edits (api_init fs0) fs0 (api_init_invariant fs0 Hnd)) as (Hnd' & _ & Hdirs).
+    fold (api_history fs0 edits) in Hdirs. split; [|split].
+    - unfold lint_dirs. rewrite dirs_update_nil. apply dirs_represent_ignored. exact Hdirs.
+    - rewrite lint_dirs_single. apply dirs_represent_ignored.
+      apply (dir_cache_set File fname fcomments); assumption.
+    - intros Hnone Hfile. rewrite lint_dirs_single. unfold agg_ignored, agg_directives.
+      rewrite Hfile, gm_get_set_same. unfold AggCache.file_dirs. rewrite Hnone. cbn.
+      unfold ignored. destruct (v_row v); reflexivity.
+  Qed.
+End HistoryProofs.
